@@ -836,6 +836,10 @@ def rule_Q7(ctx, R):
         bad = None
         for p in paths:
             ks = [e for e in p.ev("KILL") if not e.get("derived")]
+            # a function that executes lock_api operations on a leaf lock itself (a private keyless helper inlined into
+            # `Debug`, a fair unlock) kills that leaf when the raw operation panics: that is the leaf protocol (Q1), not this
+            raw_owners = set(e.get("owner") for e in p.ev("RAW") if e.get("owner"))
+            ks = [e for e in ks if e.get("recv") not in raw_owners]
             if ks:
                 bad = "kills %s (path: %s)" % (ctx.arg_name(f, ks[0]["recv"]), p.trace()[:300])
                 break
